@@ -503,3 +503,54 @@ func TestIsolation(t *testing.T) {
 	vf.Check(r, func(t *rapid.T) Case { return genCase(t, r) },
 		func(c Case, o *vf.Obs) error { return checkWith(c, o, r) })
 }
+
+// ---------------- witnesses of listed findings ----------------
+
+// witness runs the fixed minimal case of a finding. While the finding is listed as known a
+// reproduction is not a violation and KnownHit tells the driver that the defect is still there;
+// otherwise (not listed, or listed as fixed) the case is a strict regression case.
+func witness(t *testing.T, id string, c Case) {
+	r := vf.Start(t, "C11")
+	known := r.IsKnown(id)
+	o := &vf.Obs{}
+	var oc outcome
+	for i := 0; i < 6; i++ {
+		oc = runChild(c, 3)
+		if oc.err != nil {
+			break
+		}
+	}
+	label(c, o, oc.res)
+	o.ClassIf(known, "listed_as_known")
+	switch {
+	case oc.err == nil:
+		r.Record(c, o, nil)
+	case known && oc.finding == id:
+		r.KnownHit(id)
+		r.Record(c, o, nil)
+	default:
+		o.Note("detail", oc.detail)
+		err := oc.err
+		if oc.finding != "" {
+			o.Note("finding", oc.finding)
+			err = fmt.Errorf("[%s] %v", oc.finding, oc.err)
+		}
+		r.Record(c, o, err)
+		t.Errorf("regression case of %s failed: %v", id, err)
+	}
+}
+
+func TestWitnessRandIterator(t *testing.T) {
+	witness(t, findingRandIter, Case{Kind: kindHTTPScen, Instances: 4, Shots: 16, Agg: "phout",
+		Scen: &Scen{Source: "csv", Rows: 3, Index: "rand", Meta: "none", Repeat: 1, Scenarios: 1}})
+}
+
+func TestWitnessRandString(t *testing.T) {
+	witness(t, findingRandString, Case{Kind: kindHTTPScen, Instances: 4, Shots: 16, Agg: "phout",
+		Scen: &Scen{FnRandString: true, PreRandString: true, Meta: "none", Repeat: 1, Scenarios: 1}})
+}
+
+func TestWitnessGRPCMetadata(t *testing.T) {
+	witness(t, findingGRPCMeta, Case{Kind: kindGRPCScen, Instances: 4, Shots: 16, Agg: "phout",
+		Scen: &Scen{PreUUID: true, Meta: "tmpl", Repeat: 1, Scenarios: 1}})
+}
